@@ -11,7 +11,7 @@ Shapes are concrete per path; cells may be symbolic.  dtype is a real numpy.dtyp
 """
 import numpy as _np
 
-from .cells import NAN, POISON, ModelGap, is_nan, norm_cell, cell_kind, BoolScalar, is_symbolic, num_eq, num_lt
+from .cells import NAN, POISON, ModelGap, is_nan, norm_cell, cell_kind, BoolScalar, is_symbolic, num_eq, num_lt, Buf, conc, fast, in_fast_path
 
 DT_BOOL = _np.dtype(bool)
 DT_INT = _np.dtype(_np.int64)
@@ -330,11 +330,14 @@ class ndarray:
         return self
 
     @classmethod
-    def _from_cells(cls, cells, shape, dtype):
+    def _from_cells(cls, cells, shape, dtype, sym=None):
         shape = tuple(shape)
         if len(cells) != _prod(shape):
             raise AssertionError('model: cell count does not match shape')
-        return cls._new(list(cells), 0, shape, _c_strides(shape), dtype)
+        buf = Buf(cells)
+        # conservative: anything built while tracing (outside the concrete fast path) may hold symbolic cells
+        buf.sym = (not in_fast_path()) if sym is None else sym
+        return cls._new(buf, 0, shape, _c_strides(shape), dtype)
 
     # ---------------------------------------------------------------- basic attributes
     @property
@@ -630,6 +633,8 @@ class ndarray:
     def __setitem__(self, key, value):
         if not self.flags._writeable:
             raise ValueError('assignment destination is read-only')
+        if not self._buf.sym and not in_fast_path() and not conc(value):
+            self._buf.sym = True
         pos, shape, _ = self._resolve(key)
         dt = self._dtype
         buf = self._buf
@@ -846,6 +851,7 @@ class ndarray:
         if not self.flags._writeable:
             raise ValueError('sort array is read-only')
         s = funcs.sort(self, axis=axis, kind=kind)
+        _mark(self._buf)
         for p, c in zip(self._positions(), s._cells()):
             self._buf[p] = c
 
@@ -905,6 +911,7 @@ class ndarray:
             cells = [cast_cell(c, dt) for c in res._cells()]
         else:
             cells = res._cells()
+        _mark(self._buf)
         for p, c in zip(self._positions(), cells):
             self._buf[p] = c
         return self
@@ -963,6 +970,12 @@ def to_real(a):
 def from_real(r):
     cells = [norm_cell(c) for c in (r.reshape(-1).tolist() if r.dtype.kind == 'O' else list(r.reshape(-1)))]
     return ndarray._from_cells(cells, r.shape, r.dtype)
+
+
+def _mark(buf):
+    """A direct buffer write outside the concrete fast path may store a symbolic cell."""
+    if not in_fast_path():
+        buf.sym = True
 
 
 def _rebuild(cells, shape, dtstr, writeable):
